@@ -195,7 +195,9 @@ def traversal_idiom(index, ctx):
         return
     F = cands[0]
     ctx.analysed(F.qualname)
-    fn = F.node
+    from ..normalize import inline_local_closures
+
+    fn = inline_local_closures(F.node)  # a local `_discover(node)` called as a statement is read in place
     cfg = cfg_of(fn)
     # ---- successor element variables and successor collections, with the conditions known to hold for their elements
     def is_nf(e):
@@ -269,6 +271,11 @@ def traversal_idiom(index, ctx):
                     succ_vars[v] = cs
         if isinstance(n, ast.Assign) and isinstance(n.targets[0], ast.Name) and is_nf(n.value) and comp_conds(n.value) is None and not isinstance(unwrap(n.value), (ast.ListComp, ast.SetComp, ast.GeneratorExp)):
             succ_vars[n.targets[0].id] = set()
+    root_vars = {}
+    fparams0 = [a.arg for a in fn.args.args]
+    for n in ast.walk(fn):
+        if isinstance(n, ast.For) and isinstance(n.iter, ast.Name) and fparams0 and n.iter.id == fparams0[0] and isinstance(n.target, ast.Name):
+            root_vars[n.target.id] = {("notnone",)}  # roots are graph nodes (grad_fn of tensors that have one)
     # worklist and cursor
     pops = [n for n in ast.walk(fn) if isinstance(n, ast.Assign) and isinstance(n.value, ast.Call) and isinstance(n.value.func, ast.Attribute) and n.value.func.attr in ("pop", "popleft")]
     if not pops and frontier_form(ctx, F, fn, succ_vars, implied_conditions_fn=implied_conditions, kind_ok=lambda t, cur: _kind_test(index, F, t, cur)):
@@ -349,6 +356,7 @@ def traversal_idiom(index, ctx):
                 f"worklist initialisation `{norm_text(init[0]) if init else '?'}` does not subtract the excluded nodes from the roots", F.loc(init[0]) if init else F.loc())
     # adoptions: (cfg node, what is adopted, conditions known, how, is_collection)
     adoptions = []
+    root_pushes = []
     for n in cfg.stmt_nodes():
         a = n.ast
         if n.kind != "stmt":
@@ -362,6 +370,8 @@ def traversal_idiom(index, ctx):
             arg, meth = a.value.args[0], a.value.func.attr
             if meth in ("append", "appendleft", "add") and isinstance(arg, ast.Name) and arg.id in succ_vars:
                 adoptions.append((n, arg.id, succ_vars[arg.id] | conds_about(guards, arg.id), "pushed on the worklist", False, guards))
+            elif meth in ("append", "appendleft", "add") and isinstance(arg, ast.Name) and arg.id in root_vars:
+                root_pushes.append((n, arg.id, guards))
             elif meth in ("extend", "extendleft", "update"):
                 cs = comp_conds(arg)
                 if cs is not None:
@@ -379,7 +389,7 @@ def traversal_idiom(index, ctx):
         seen_sets = {c[1] for c in conds if c[0] == "notin"}
         # marking: S.add(var) / S.update(collection) / S |= ... in the same block, for a set S the membership test refers to
         marked_in = set()
-        for blk_stmt in siblings(fn, n.ast):
+        for blk_stmt in enclosing_siblings(fn, n.ast):
             for x in ast.walk(blk_stmt):
                 if isinstance(x, ast.Call) and isinstance(x.func, ast.Attribute) and x.args:
                     if x.func.attr == "add" and not is_coll and isinstance(x.args[0], ast.Name) and x.args[0].id == what:
@@ -432,7 +442,41 @@ def traversal_idiom(index, ctx):
         ok = len(tests) == 1 and kind_test(tests[0].ast.test)
         ctx.require(ok, "R4", f"{F.short}: collection of leaf accumulators", "conditional on the node kind only", f"`{norm_text(n.ast)}` is guarded by {[norm_text(t.ast.test) for t in tests]}", F.loc(n.ast))
     n_coll = len(coll)
-    if not coll:
+    # ---- classification at DISCOVERY time: every discovered node (successor or root) is either collected (leaf accumulator) or scheduled, decided by its kind alone:
+    #      `if <kind test on v>: result.add(v) else: worklist.append(v)`. Scheduled nodes are then never leaf accumulators, so nothing is collected at the pop.
+    disc = []
+    for n in cfg.stmt_nodes():
+        a = n.ast
+        if n.kind == "stmt" and isinstance(a, ast.Expr) and isinstance(a.value, ast.Call) and isinstance(a.value.func, ast.Attribute) and a.value.func.attr == "add" and a.value.args \
+                and isinstance(a.value.args[0], ast.Name) and a.value.args[0].id in (set(succ_vars) | set(root_vars)) and base_name(a.value.func.value) != worklist \
+                and not any(c[0] == "notin" and c[1] == base_name(a.value.func.value) for c in conds_about([g for t, lbl in cfg.guards_of(n) if t.kind == "test" and hasattr(t.ast, "test") for g in implied_conditions(t.ast.test, lbl)], a.value.args[0].id)):
+            disc.append(n)
+    if disc and not coll:
+        ok_all = True
+        for n in disc:
+            v = n.ast.value.args[0].id
+            par = next((x for x in ast.walk(fn) if isinstance(x, ast.If) and (n.ast in x.body or n.ast in x.orelse)), None)
+            in_body = par is not None and n.ast in par.body
+            other = (par.orelse if in_body else par.body) if par is not None else []
+            kind_ok = par is not None and _kind_test(index, F, par.test if not (isinstance(par.test, ast.UnaryOp) and isinstance(par.test.op, ast.Not)) else par.test.operand, v)
+            positive = par is not None and not (isinstance(par.test, ast.UnaryOp) and isinstance(par.test.op, ast.Not))
+            pushes_other = any(isinstance(x, ast.Expr) and isinstance(x.value, ast.Call) and isinstance(x.value.func, ast.Attribute) and x.value.func.attr in ("append", "appendleft", "add")
+                               and base_name(x.value.func.value) == worklist and x.value.args and isinstance(x.value.args[0], ast.Name) and x.value.args[0].id == v for x in other)
+            good = kind_ok and pushes_other and (in_body == positive) and len(par.body) == 1 and len(par.orelse) == 1
+            ok_all = ok_all and good
+            n_coll += 1
+            ctx.require(good, "R4", f"{F.short}: `{v}` is collected or scheduled according to its kind", "if <leaf accumulator>: collect, else: schedule",
+                        f"`{norm_text(n.ast)}` is not one arm of `if <kind of {v}>: collect else: schedule`", F.loc(n.ast))
+        # every scheduling of a discovered node is the other arm of such a classification (an unclassified leaf accumulator would be popped and never collected)
+        classified = {id(x) for n in disc for par in [next((y for y in ast.walk(fn) if isinstance(y, ast.If) and (n.ast in y.body or n.ast in y.orelse)), None)] if par is not None for x in par.body + par.orelse}
+        stray = [n for n, *_ in adoptions if id(n.ast) not in classified]  # (roots are grad_fn nodes of non-leaf tensors: never leaf accumulators — they may be scheduled as they are)
+        ctx.require(not stray, "R4", f"{F.short}: every scheduled node went through the classification", "all pushes are the `else` arm of a kind test",
+                    f"`{norm_text(stray[0].ast) if stray else ''}` schedules a node without classifying it: a leaf accumulator scheduled this way is popped (it has no successors) and never collected",
+                    F.loc(stray[0].ast) if stray else F.loc())
+        seen_vars = {n.ast.value.args[0].id for n in disc}
+        ctx.require(bool(seen_vars & set(succ_vars)), "R4", f"{F.short}: successors are classified when discovered",
+                    f"classified: {sorted(seen_vars)}", f"only {sorted(seen_vars)} are classified at discovery (successors: {sorted(succ_vars)})", F.loc())
+    if not coll and not disc:
         # the traversal may hand every visited node to its caller (`yield node`), which keeps the leaf accumulators:
         # `{n for n in walk(...) if <kind test on n>}`
         yields = [n for n in cfg.stmt_nodes() if n.kind == "stmt" and isinstance(n.ast, ast.Expr) and isinstance(n.ast.value, ast.Yield) and isinstance(n.ast.value.value, ast.Name)
@@ -586,6 +630,19 @@ def frontier_form(ctx, F, fn, succ_vars, implied_conditions_fn, kind_ok) -> bool
                     f"`{norm_text(c)}` is guarded by {[norm_text(t.ast.test) for t in tests]}", F.loc(c))
     ctx.floor("collection sites", len(coll), 1)
     return True
+
+
+def enclosing_siblings(fn, stmt):
+    """Statements of the block holding `stmt` and of the blocks holding the `if` statements around it (up to the loop it sits in)."""
+    out, cur = [], stmt
+    for _ in range(4):
+        blk = siblings(fn, cur)
+        out += blk
+        parent = next((n for n in ast.walk(fn) if any(isinstance(getattr(n, f, None), list) and cur in getattr(n, f) for f in ("body", "orelse"))), None)
+        if not isinstance(parent, ast.If):
+            break
+        cur = parent
+    return out
 
 
 def siblings(fn, stmt):
